@@ -729,7 +729,7 @@ impl Property for C15 {
     }
     fn budget(&self, tier: Tier) -> u64 {
         match tier {
-            Tier::Quick => 400,
+            Tier::Quick => 1_000,
             Tier::Thorough => 6_000,
         }
     }
